@@ -127,7 +127,7 @@ def run_property(chk, pid):
     recs = []
     cfgs = ["DominatorsMC_3.cfg"] + ([] if quick else ["DominatorsMC_4.cfg"])
     chk.bounds = dict(exhaustive="all rooted digraphs on 1..3 nodes" + ("" if quick else " and on 4 nodes (38 912)"),
-                      sampled="4-node graphs (1 in 6)" if quick else "5-node graphs (random 60 000)", random="6..%d nodes" % (60 if quick else 300))
+                      sampled="4-node graphs (1 in 6)" if quick else "5-node graphs (random 60 000)", random="6..%d nodes" % (100 if quick else 300))
     n_s2c = 0
     for cfg in cfgs:
         r, states = tlc.dump_states("DominatorsMC", cfg, timeout=3000, heap="6g")
@@ -169,10 +169,12 @@ def run_property(chk, pid):
             if rooted(5, edges):
                 idom, num = run_graph(5, edges, [e for e in edges if rnd.random() < 0.3])
                 recs.append(dict(n=5, edges=[list(e) for e in edges], idom=idom, num=num, full=True, src="rand5"))
-    sizes = [6, 7, 8, 10, 15, 25, 40, 60] if quick else [6, 8, 12, 20, 40, 80, 150, 300]
+    # (mistakes in the path compression of the dominator algorithm only show on larger graphs: measured with a seeded change, 1 graph in
+    #  75 at 25 nodes, 1 in 12 at 60, 1 in 6 at 100 -- hence the block of 100-node graphs in the quick tier too)
+    sizes = [6, 7, 8, 10, 15, 25, 40, 60, 100] if quick else [6, 8, 12, 20, 40, 80, 100, 150, 300]
     reps = 12 if quick else 120
     for n in sizes:
-        for k in range(reps if n <= 80 else 6):
+        for k in range((reps if n <= 80 else 6) if n != 100 else (36 if quick else 150)):
             edges = random_graph(rnd, n, rnd.choice(["sparse", "dense", "loops"]))
             idom, num = run_graph(n, edges, [e for e in edges if rnd.random() < 0.2])
             recs.append(dict(n=n, edges=[list(e) for e in edges], idom=idom, num=num, full=n <= 5, src="random"))
